@@ -361,8 +361,10 @@ func explorePair(scratch string, a, b op, bound int, rep *Report, deadline time.
 	}
 	pr := PairReport{A: a.name, B: b.name, Bound: bound, Exhaustive: true}
 	nviol := 0
-	sched.Explore(bound, func(prefix []int) []sched.PointRec {
-		S := &sched.Sched{FreeGrace: 5 * time.Second}
+	confirming, confirmed := false, false
+	var runOne func(prefix []int) []sched.PointRec
+	runOne = func(prefix []int) []sched.PointRec {
+		S := &sched.Sched{}
 		capped := false
 		yieldHooks(S, capFor(bound), &capped)
 		installSync(S)
@@ -389,11 +391,19 @@ func explorePair(scratch string, a, b op, bound int, rep *Report, deadline time.
 		cas := Case{Kind: "interference-schedule", A: a.name, B: b.name, Schedule: sched.Choices(out.Points), Bound: bound}
 		kind := strings.SplitN(a.name, ":", 2)[0] + "|" + strings.SplitN(b.name, ":", 2)[0]
 		switch {
+		case confirming:
+			confirmed = out.Deadlock
 		case out.Stuck:
 			pr.Exhaustive = false
 		case out.Deadlock:
-			rep.Violations = append(rep.Violations, Violation{"interference/deadlock/" + kind, "two operations on disjoint objects block each other: " + a.name + " ‖ " + b.name, cas})
-			nviol++
+			// believed only when the same choices end in it again, twice (a goroutine the scheduler does not own may
+			// have held a lock for a moment)
+			if confirmDeadlock(runOne, sched.Choices(out.Points), &confirming, &confirmed) {
+				rep.Violations = append(rep.Violations, Violation{"interference/deadlock/" + kind, "two operations on disjoint objects block each other: " + a.name + " ‖ " + b.name, cas})
+				nviol++
+			} else {
+				pr.Exhaustive = false
+			}
 		case diverged(pa, pb):
 			// the execution did not repeat under the recorded choices: something in the code under test is not
 			// deterministic (e.g. a goroutine the scheduler does not own); this schedule decides nothing
@@ -410,11 +420,31 @@ func explorePair(scratch string, a, b op, bound int, rep *Report, deadline time.
 			nviol++
 		}
 		return out.Points
-	}, func() bool { return nviol > 3 || time.Now().After(deadline) || rep.Infra != "" })
+	}
+	sched.Explore(bound, runOne, func() bool { return nviol > 3 || time.Now().After(deadline) || rep.Infra != "" })
 	if time.Now().After(deadline) {
 		pr.Exhaustive = false
 	}
 	rep.Pairs = append(rep.Pairs, pr)
+}
+
+// confirmDeadlock replays the complete choice sequence of an execution that ended with "nothing enabled" twice; only
+// when both replays end the same way is the deadlock one of the code under test.
+func confirmDeadlock(runOne func([]int) []sched.PointRec, choices []int, confirming, confirmed *bool) (ok bool) {
+	defer func() {
+		*confirming = false
+		if recover() != nil { // the replay diverged: not reproducible
+			ok = false
+		}
+	}()
+	for k := 0; k < 2; k++ {
+		*confirming, *confirmed = true, false
+		runOne(choices)
+		if !*confirmed {
+			return false
+		}
+	}
+	return true
 }
 
 func trunc(s string) string {
@@ -593,7 +623,7 @@ func kindOf(name string) string {
 
 func replayOne(scratch string, a, b op, cas Case, rep *Report) {
 	soloA, soloB := a.run(scratch), b.run(scratch)
-	S := &sched.Sched{FreeGrace: 5 * time.Second}
+	S := &sched.Sched{}
 	yieldHooks(S, capFor(cas.Bound), nil)
 	installSync(S)
 	var ra, rb string
